@@ -470,3 +470,569 @@ def translate(repo):
         "(%s, %s)" % (_lean_bytes(cparse.c_string_literal(a)), b) for a, b in pm)
     out += "end Gen.Date\n"
     return {"Gen/DateGen.lean": out}
+
+
+# ====================================================================== K: generators, references, exhaustive scans
+
+import datetime as _dt
+
+MS_MIN, MS_MAX = -62135596800000, 253402300799999     # 0001-01-01T00:00:00.000Z .. 9999-12-31T23:59:59.999Z
+DAY_MIN, DAY_MAX = -719162, 2932896
+_D0 = _dt.datetime(1, 1, 1)
+_EPOCH = _dt.datetime(1970, 1, 1)
+WD = ["Sun", "Mon", "Tue", "Wed", "Thu", "Fri", "Sat"]
+MN = ["Jan", "Feb", "Mar", "Apr", "May", "Jun", "Jul", "Aug", "Sep", "Oct", "Nov", "Dec"]
+FMT_NAMES = {0: "LONG", 1: "SHORT", 2: "DATE_ONLY", 3: "HTTP", 4: "FULL"}
+
+
+def day_of(y, m, d):
+    return (_dt.date(y, m, d) - _dt.date(1970, 1, 1)).days
+
+
+def py_fields(ms):
+    """(y, m, d, h, mi, s, weekday Sunday=0, ms part) from python's proleptic Gregorian datetime"""
+    t = _D0 + _dt.timedelta(milliseconds=ms - MS_MIN)
+    return t.year, t.month, t.day, t.hour, t.minute, t.second, (t.weekday() + 1) % 7, t.microsecond // 1000
+
+
+def py_make(y, m, d, h, mi, s):
+    return ((_dt.datetime(y, m, d, h, mi, s) - _EPOCH) // _dt.timedelta(milliseconds=1))
+
+
+def py_fmt(k, ms):
+    y, m, d, h, mi, s, wd, msp = py_fields(ms)
+    if k == 0:
+        return "%04d-%02d-%02dT%02d:%02d:%02dZ" % (y, m, d, h, mi, s)
+    if k == 1:
+        return "%04d%02d%02dT%02d%02d%02dZ" % (y, m, d, h, mi, s)
+    if k == 2:
+        return "%04d-%02d-%02dZ" % (y, m, d)
+    if k == 3:
+        return "%s, %02d %s %04d %02d:%02d:%02d GMT" % (WD[wd], d, MN[m - 1], y, h, mi, s)
+    return "%04d-%02d-%02dT%02d:%02d:%02d.%03dZ" % (y, m, d, h, mi, s, msp)
+
+
+def py_inst(ms):
+    y, m, d, h, mi, s, wd, msp = py_fields(ms)
+    fl = ms - msp
+    return "f=%d %d %d %d %d %d %d mk=%d L=%s S=%s D=%s H=%s F=%s rt=%d %d %d %d or=ok" % (
+        y, m, d, h, mi, s, wd, fl, py_fmt(0, ms), py_fmt(1, ms), py_fmt(2, ms), py_fmt(3, ms), py_fmt(4, ms), fl, fl, fl, ms)
+
+
+def c_parse_int_wrap(digits):
+    """value of parseInt() on a digit string with 32-bit wrap-around (used only to keep generated fractions away
+    from half-millisecond ties, where the double sum cannot be compared to the millisecond)"""
+    x, k = 0, 1
+    w = lambda v: (v + 2 ** 31) % 2 ** 32 - 2 ** 31
+    for c in reversed(digits):
+        x = w(x + w((c - 48) * k))
+        k = w(k * 10)
+    return x
+
+
+def frac_tie(s):
+    """does the byte string contain a fraction `.ddd…` within 0.06 ms of a half-millisecond?"""
+    for m in re.finditer(rb"\.([0-9]{4,})", s):
+        dg = m.group(1)
+        x = c_parse_int_wrap(dg)
+        if x < 0:
+            continue
+        num = x * 1000 * 100
+        den = 10 ** len(dg)
+        f = (num // den) % 100          # hundredths of a millisecond
+        if 44 <= f <= 55:
+            return True
+    return False
+
+
+_ISO_EXT = re.compile(rb"^(\d{4})-(\d\d)-(\d\d)T(\d\d):(\d\d)(?::(\d\d))?(?:\.(\d{0,9}))?(Z|[+-]\d\d(?::?\d\d)?)?$")
+_ISO_BAS = re.compile(rb"^(\d{4})(\d\d)(\d\d)T(\d\d)(\d\d)(\d\d)?(?:\.(\d{0,9}))?(Z|[+-]\d\d(?::?\d\d)?)?$")
+_HTTP = re.compile(rb"^(Sun|Mon|Tue|Wed|Thu|Fri|Sat), (\d\d) (Jan|Feb|Mar|Apr|May|Jun|Jul|Aug|Sep|Oct|Nov|Dec) (\d{4}) (\d\d):(\d\d):(\d\d) GMT$")
+
+
+def py_parse(b):
+    """instant (ms) denoted by a *canonical* ISO 8601 / RFC 1123 string, from the standards; None = no opinion"""
+    m = _HTTP.match(b)
+    try:
+        if m:
+            return py_make(int(m.group(4)), MN.index(m.group(3).decode()) + 1, int(m.group(2)), int(m.group(5)), int(m.group(6)), int(m.group(7)))
+        m = _ISO_EXT.match(b) or _ISO_BAS.match(b)
+        if not m or frac_tie(b):
+            return None
+        y, mo, d, h, mi = (int(m.group(i)) for i in range(1, 6))
+        s = int(m.group(6)) if m.group(6) else 0
+        if y < 1:
+            return None
+        t = py_make(y, mo, d, h, mi, s)
+        fr = m.group(7)
+        if fr:
+            t += (2 * int(fr) * 1000 + 10 ** len(fr)) // (2 * 10 ** len(fr))
+        z = m.group(8)
+        if z and z != b"Z":
+            dg = z[1:].replace(b":", b"")
+            off = int(dg[:2]) * 60 + (int(dg[2:4]) if len(dg) == 4 else 0)
+            t += -off * 60000 if z[:1] == b"+" else off * 60000
+        return t
+    except ValueError:
+        return None
+
+
+REFERENCE_NAME = "python3 datetime (proleptic Gregorian) + ISO 8601 / RFC 1123 reading of canonical strings"
+
+
+def reference(line):
+    t = line.split()
+    try:
+        op = t[0]
+        if op == "split":
+            ms = int(t[1])
+            return " ".join(str(v) for v in py_fields(ms)[:7]) if MS_MIN <= ms <= MS_MAX else None
+        if op == "inst":
+            ms = int(t[1])
+            return py_inst(ms) if MS_MIN <= ms <= MS_MAX else None
+        if op == "fmt":
+            ms = int(t[2])
+            return hexs(py_fmt(int(t[1]), ms).encode()) if MS_MIN <= ms <= MS_MAX else None
+        if op == "rt":
+            ms = int(t[2])
+            k = int(t[1])
+            if not (MS_MIN <= ms <= MS_MAX) or k == 2:
+                return None
+            return str(ms if k == 4 else ms - ms % 1000)
+        if op == "make":
+            y, m, d, h, mi, s = (int(x) for x in t[1:7])
+            if 1 <= y <= 9999 and 0 <= h < 24 and 0 <= mi < 60 and 0 <= s < 60:
+                try:
+                    return str(py_make(y, m, d, h, mi, s))
+                except ValueError:
+                    return None
+            return None
+        if op == "parse":
+            r = py_parse(unhex(t[1]))
+            return None if r is None else str(r)
+    except Exception:
+        return None
+    return None
+
+
+# ---------------------------------------------------------------- generated cases (cheap single-op lines)
+
+ALPHA = b"0123456789TZ:-+. " + b"abcdefghijklmnopqrstuvwxyzABCDEFGHIJKLMNOPQRSUVWXY"
+FOCUS = b"0123456789TZ:-+. "
+
+
+def rand_ms(rng):
+    r = rng.random()
+    if r < 0.15:
+        return rng.randrange(-2208988800000, 4102444800000)             # 1900..2100 (fast path 1904-2099 and its limits)
+    if r < 0.25:
+        y = rng.choice([1, 4, 100, 400, 1600, 1900, 1904, 1970, 2000, 2099, 2100, 2400, 9999])
+        base = day_of(y, rng.choice([1, 2, 3, 12]), rng.choice([1, 28, 29 if y % 4 == 0 and (y % 100 != 0 or y % 400 == 0) else 28, 31 if False else 1]))
+        return min(MS_MAX, max(MS_MIN, base * 86400000 + rng.randrange(-2, 3) * 86400000 + rng.randrange(86400000)))
+    return rng.randrange(MS_MIN, MS_MAX + 1)
+
+
+def zone_text(rng, sign, hh, mm, style):
+    s = b"+" if sign > 0 else b"-"
+    if style == 0:
+        return s + b"%02d:%02d" % (hh, mm)
+    if style == 1:
+        return s + b"%02d%02d" % (hh, mm)
+    return s + b"%02d" % hh
+
+
+def iso_text(rng, ms, ext, secs=True, frac=None, zone=b"Z"):
+    y, m, d, h, mi, s = py_fields(ms)[:6]
+    if ext:
+        b = b"%04d-%02d-%02dT%02d:%02d" % (y, m, d, h, mi) + (b":%02d" % s if secs else b"")
+    else:
+        b = b"%04d%02d%02dT%02d%02d" % (y, m, d, h, mi) + (b"%02d" % s if secs else b"")
+    if frac is not None:
+        b += b"." + frac
+    return b + zone
+
+
+def rand_frac(rng, maxd=9):
+    n = rng.randrange(1, maxd + 1)
+    return bytes(rng.choice(b"0123456789") for _ in range(n))
+
+
+def mutate(rng, b, alpha):
+    b = bytearray(b)
+    for _ in range(rng.choice([1, 1, 1, 2, 2, 3])):
+        r = rng.random()
+        if r < 0.4 and b:
+            b[rng.randrange(len(b))] = rng.choice(alpha)
+        elif r < 0.7 and b:
+            del b[rng.randrange(len(b))]
+        elif r < 0.9:
+            b.insert(rng.randrange(len(b) + 1), rng.choice(alpha))
+        elif b:
+            k = rng.randrange(len(b) + 1)
+            b = b[:k]
+    return bytes(b)
+
+
+def structured_iso(rng):
+    dgt = lambda n: bytes(rng.choice(b"0123456789") for _ in range(n))
+    ext = rng.random() < 0.5
+    y = dgt(4) if rng.random() < 0.8 else b"%04d" % rng.choice([0, 1, 1900, 1904, 2000, 2099, 2100, 9999])
+    mo = b"%02d" % rng.randrange(0, 15) if rng.random() < 0.8 else dgt(2)
+    d = b"%02d" % rng.randrange(0, 34) if rng.random() < 0.8 else dgt(2)
+    sep = b"-" if ext else b""
+    s = y + sep + mo + sep + d
+    s += rng.choice([b"T", b"T", b"T", b"T", b" ", b"t", b""])
+    h = b"%02d" % rng.randrange(0, 26) if rng.random() < 0.85 else dgt(2)
+    mi = b"%02d" % rng.randrange(0, 62) if rng.random() < 0.85 else dgt(2)
+    c = (b":" if ext else b"") if rng.random() < 0.9 else rng.choice([b":", b"", b"-"])
+    s += h + c + mi
+    if rng.random() < 0.7:
+        s += c + (b"%02d" % rng.randrange(0, 62) if rng.random() < 0.85 else dgt(2))
+    if rng.random() < 0.4:
+        s += b"." + dgt(rng.choice([0, 1, 2, 3, 3, 4, 5, 6, 7, 8, 9, 10, 11, 12, 15]))
+    z = rng.random()
+    if z < 0.25:
+        s += b"Z"
+    elif z < 0.75:
+        s += rng.choice([b"+", b"-"]) + rng.choice([dgt(2) + b":" + dgt(2), dgt(4), dgt(2), dgt(1), b"", dgt(2) + b":" + dgt(1), dgt(3),
+                                                    dgt(2) + b":", dgt(2) + b"." + dgt(2), b"%02d:%02d" % (rng.randrange(24), rng.randrange(60)), dgt(5), dgt(2) + b":" + dgt(3)])
+    elif z < 0.85:
+        s += bytes(rng.choice(ALPHA) for _ in range(rng.randrange(1, 4)))
+    return s[:40]
+
+
+def structured_http(rng):
+    ms = rand_ms(rng)
+    y, m, d, h, mi, s, wd, _ = py_fields(ms)
+    tok = [rng.choice(WD).encode() + b",", b"%02d" % d, MN[m - 1].encode(), b"%04d" % y, b"%02d:%02d:%02d" % (h, mi, s), b"GMT"]
+    r = rng.random()
+    if r < 0.6:
+        i = rng.randrange(6)
+        if i == 1:
+            tok[1] = rng.choice([b"%d" % rng.randrange(0, 10), b"%02d" % rng.randrange(0, 40), b"1x", b"x1", b"123"])
+        elif i == 2:
+            tok[2] = rng.choice([b"jan", b"JAN", b"Ja", b"Janu", b"Foo", b"May", b"Dec"])
+        elif i == 3:
+            tok[3] = bytes(rng.choice(b"0123456789") for _ in range(rng.randrange(1, 7)))      # TODO(int overflow): years of >= 7 digits overflow 365*(y-1970) (signed overflow, no memory effect) and are not generated
+            if rng.random() < 0.2:
+                tok[3] += b"x"
+        elif i == 4:
+            tok[4] = mutate(rng, tok[4], b"0123456789:x")
+        elif i == 0:
+            tok[0] = rng.choice([b"Zed,", b"A", b"Bxx", b"Y", b"thu,", b"Thu"])
+        else:
+            tok[5] = rng.choice([b"UTC", b"", b"GMT+1"])
+    sep = lambda: rng.choice([b" ", b" ", b" ", b"  ", b"\t", b"\n ", b" \r\n"])
+    s = b"".join(t + sep() for t in tok if t or rng.random() < 0.5)
+    if rng.random() < 0.5:
+        s = s.rstrip()
+    if rng.random() < 0.1:
+        s = b" ".join(tok[:rng.randrange(1, 6)])
+    return s
+
+
+def clean(rng, s):
+    """keep the generated string inside the compared class: no NUL, no half-millisecond tie"""
+    s = s.replace(b"\0", b"0")
+    n = 0
+    while frac_tie(s) and n < 20:
+        i = s.index(b".")
+        s = bytearray(s)
+        j = rng.randrange(i + 1, len(s))
+        if 48 <= s[j] <= 57:
+            s[j] = rng.choice(b"0123456789")
+        s = bytes(s)
+        n += 1
+    return None if frac_tie(s) else s
+
+
+def gen(rng, tier):
+    big = tier != "quick"
+    cases = []
+    P = lambda b: "parse " + hexs(b)
+    # --- single instants: split / fmt / rt / inst, incl. milliseconds and the limits of the range
+    edge = [MS_MIN, MS_MIN + 1, MS_MAX, MS_MAX - 999, 0, -1, -1000, 999, 86399999, -86400000, 951782400000, 4107542399999,
+            day_of(1904, 1, 1) * 86400000, day_of(1904, 1, 1) * 86400000 - 1, day_of(2099, 12, 31) * 86400000 + 86399999, day_of(2100, 1, 1) * 86400000,
+            day_of(1903, 12, 31) * 86400000, day_of(2100, 3, 1) * 86400000, day_of(1900, 2, 28) * 86400000 + 86399999, day_of(1900, 3, 1) * 86400000]
+    for ms in edge + [rand_ms(rng) for _ in range(4000 if big else 600)]:
+        cases.append(["inst %d" % ms, "split %d" % ms] + ["fmt %d %d" % (k, ms) for k in range(5)] + ["rt %d %d" % (k, ms) for k in (0, 1, 3, 4)])
+    # --- every zone offset -23:59..+23:59 (all styles in thorough, one random style each in quick)
+    batch = []
+    for sign in (1, -1):
+        for hh in range(24):
+            for mm in range(60):
+                styles = [0, 1] if big else [rng.choice([0, 1])]
+                if mm == 0:
+                    styles = styles + [2]
+                for st in styles:
+                    ms = rand_ms(rng)
+                    ms = min(max(ms, MS_MIN + 2 * 86400000), MS_MAX - 2 * 86400000)
+                    ext = rng.random() < 0.5
+                    secs = rng.random() < 0.8
+                    fr = rand_frac(rng) if rng.random() < 0.3 else None
+                    b = clean(rng, iso_text(rng, ms, ext, secs, fr, zone_text(rng, sign, hh, mm, st)))
+                    if b is not None:
+                        batch.append(P(b))
+                    if len(batch) >= 40:
+                        cases.append(batch)
+                        batch = []
+    if batch:
+        cases.append(batch)
+    # --- fractions of 1..9 digits (and longer ones, where parseInt wraps), all zone styles
+    for nd in list(range(0, 13)) + [15, 20]:
+        for _ in range(200 if big else 30):
+            ms = rand_ms(rng)
+            ms = min(max(ms, MS_MIN + 2 * 86400000), MS_MAX - 2 * 86400000)
+            fr = bytes(rng.choice(b"0123456789") for _ in range(nd))
+            if rng.random() < 0.2 and nd:
+                fr = rng.choice([b"0" * nd, b"9" * nd, b"0" * (nd - 1) + b"1", b"5" + b"0" * (nd - 1)])
+            z = rng.choice([b"Z", b"", zone_text(rng, rng.choice([1, -1]), rng.randrange(24), rng.randrange(60), rng.randrange(3))])
+            b = clean(rng, iso_text(rng, ms, rng.random() < 0.5, rng.random() < 0.9, fr, z))
+            if b is not None:
+                cases.append([P(b)])
+    # --- canonical strings without seconds / without zone, lower bound lengths
+    for _ in range(1500 if big else 200):
+        ms = rand_ms(rng)
+        b = iso_text(rng, ms, rng.random() < 0.5, rng.random() < 0.5, None, rng.choice([b"Z", b"", b"+00:00", b"-0000"]))
+        cases.append([P(b)])
+    # --- arbitrary strings over the property's alphabet, up to length 40
+    n_rand = 60000 if big else 6000
+    batch = []
+    for i in range(n_rand):
+        r = rng.random()
+        if r < 0.25:
+            L = rng.randrange(0, 41)
+            al = FOCUS if rng.random() < 0.6 else ALPHA
+            s = bytes(rng.choice(al) for _ in range(L))
+        elif r < 0.5:
+            s = structured_iso(rng)
+        elif r < 0.7:
+            ms = rand_ms(rng)
+            k = rng.choice([0, 1, 3, 4])
+            s = mutate(rng, py_fmt(k, ms).encode(), FOCUS if rng.random() < 0.7 else ALPHA)
+        elif r < 0.85:
+            s = structured_http(rng)
+        else:
+            s = mutate(rng, structured_iso(rng), FOCUS)
+        s = clean(rng, s[:40] if r < 0.7 or r >= 0.85 else s)
+        if s is None:
+            continue
+        batch.append(P(s))
+        if len(batch) >= 25:
+            cases.append(batch)
+            batch = []
+    if batch:
+        cases.append(batch)
+    # all strings of length <= 2 over the focus alphabet, and every single byte
+    cases.append([P(bytes([c])) for c in range(1, 256)])
+    cases.append([P(b"")] + [P(bytes([a, b])) for a in FOCUS for b in FOCUS])
+    # --- construct from fields: valid tuples and every kind of out-of-range component
+    for _ in range(6000 if big else 800):
+        r = rng.random()
+        if r < 0.4:
+            y, m, d, h, mi, s = py_fields(rand_ms(rng))[:6]
+        elif r < 0.7:
+            y = rng.choice([rng.randrange(1, 10000), rng.randrange(-100002, -99998), rng.randrange(-5, 5), rng.randrange(9990, 10010), rng.randrange(-100000, 1000000)])
+            m = rng.randrange(-1, 15)
+            d = rng.randrange(-1, 34)
+            h, mi, s = rng.randrange(-2, 27), rng.randrange(-2, 63), rng.randrange(-2, 63)
+        else:
+            y, m, d = rng.randrange(1, 10000), rng.randrange(1, 13), rng.randrange(0, 32)
+            h, mi, s = rng.randrange(-100000, 100000), rng.randrange(-100000, 100000), rng.randrange(-100000, 100000)
+        cases.append(["make %d %d %d %d %d %d" % (y, m, d, h, mi, s)])
+    return cases
+
+
+def nontrivial(case):
+    return any(l.split()[0] in ("inst", "split", "make", "rt", "fmt") or (l.startswith("parse ") and len(l.split()[1]) >= 16) for l in case)
+
+
+def _parse_class(b):
+    if not b:
+        return "empty"
+    if 65 < b[0] < 90:
+        return "http-like" + ("-valid" if _HTTP.match(b) else "")
+    if _ISO_EXT.match(b) or _ISO_BAS.match(b):
+        m = _ISO_EXT.match(b) or _ISO_BAS.match(b)
+        z = m.group(8)
+        return "iso-canonical" + ("-frac%d" % len(m.group(7)) if m.group(7) is not None else "") + ("-offset" if z and z != b"Z" else "-Z" if z else "-nozone")
+    if len(b) >= 8 and b[:4].isdigit():
+        return "iso-like-noncanonical"
+    return "other"
+
+
+def distribution(cases):
+    ops = {}
+    cls = {}
+    lens = {}
+    for c in cases:
+        for l in c:
+            t = l.split()
+            ops[t[0]] = ops.get(t[0], 0) + 1
+            if t[0] == "parse":
+                b = unhex(t[1])
+                k = _parse_class(b)
+                cls[k] = cls.get(k, 0) + 1
+                lb = "%d-%d" % (len(b) // 8 * 8, len(b) // 8 * 8 + 7)
+                lens[lb] = lens.get(lb, 0) + 1
+    return {"ops_by_kind": ops, "parse_string_classes": cls, "parse_string_lengths": lens}
+
+
+# ---------------------------------------------------------------- exhaustive scans (run from extra(): own batching + exact bisection)
+
+SPECIAL_DAYS = [(1, 1, 1), (1, 12, 31), (4, 2, 29), (100, 2, 28), (100, 3, 1), (400, 2, 29), (1582, 10, 15), (1600, 2, 29), (1700, 2, 28), (1700, 3, 1),
+                (1899, 12, 31), (1900, 1, 1), (1900, 2, 28), (1900, 3, 1), (1903, 12, 31), (1904, 1, 1), (1904, 2, 29), (1969, 12, 31), (1970, 1, 1),
+                (1999, 12, 31), (2000, 1, 1), (2000, 2, 29), (2000, 12, 31), (2038, 1, 19), (2096, 2, 29), (2099, 12, 31), (2100, 1, 1), (2100, 2, 28),
+                (2100, 3, 1), (2400, 2, 29), (2400, 12, 31), (4000, 2, 29), (8000, 2, 29), (9999, 1, 1), (9999, 12, 31), (9600, 2, 29), (9900, 2, 28), (9900, 3, 1)]
+
+
+def scan_lines(rng, tier):
+    """(lines, instants, days).  Two kinds of lines: scan/secs are hashed on both sides (model = implementation on every
+    instant); oscan/osecs run the implementation against the harness's own Hinnant oracle only (the model is ~3x slower
+    than the ASan build of the library, so the complete enumeration is carried by the oracle lines).
+    thorough: oscan of every day 0001-01-01..9999-12-31 at 00:00:00, 12:00:00, 23:59:59 (each with a day-dependent
+    millisecond part) + scan of every 7th day and of 4 days around every 1 Jan / 28 Feb; osecs of every second of 200
+    sampled days + secs of 16 of them.  quick: oscan every 61st day, scan every 499th day (seeded residues) + the
+    year boundaries of a seeded 1/8 of the years and of all century years; osecs of 1 day + secs of 6 hours of another."""
+    lines = []
+    inst = 0
+    CH = 250
+    sods = (0, 43200, 86399)
+    quick = tier == "quick"
+
+    def strided(op, stride, off):
+        nonlocal inst
+        n_total = (DAY_MAX - (DAY_MIN + off)) // stride + 1
+        for sod in sods:
+            i = 0
+            while i < n_total:
+                n = min(CH, n_total - i)
+                lines.append("%s %d %d %d %d" % (op, DAY_MIN + off + stride * i, n, sod, stride))
+                inst += n
+                i += n
+
+    if quick:
+        strided("oscan", 61, rng.randrange(61))
+        strided("scan", 499, rng.randrange(499))
+    else:
+        strided("oscan", 1, 0)
+        strided("scan", 7, rng.randrange(7))
+    r8 = rng.randrange(8)
+    for y in range(1, 10000):
+        if quick and y % 8 != r8 and y % 100 != 0 and y not in (1, 1903, 1904, 2099, 2100, 9999):
+            continue
+        a = max(DAY_MIN, day_of(y, 1, 1) - 2)
+        lines.append("scan %d %d %d 1" % (a, 4, sods[(y + r8) % 3]))
+        lines.append("scan %d %d %d 1" % (day_of(y, 2, 27), 4, sods[(y + r8 + 1) % 3]))
+        inst += 8
+    sp = [day_of(*x) for x in SPECIAL_DAYS]
+    if quick:
+        odays = [rng.choice(sp + [rng.randrange(DAY_MIN, DAY_MAX + 1) for _ in range(len(sp))])]
+        mdays = [rng.choice(sp + [rng.randrange(DAY_MIN, DAY_MAX + 1) for _ in range(len(sp))])]
+    else:
+        odays = sp + [rng.randrange(DAY_MIN, DAY_MAX + 1) for _ in range(200 - len(sp))]
+        mdays = rng.sample(sp, 8) + rng.sample(odays[len(sp):], 8)
+    q0 = rng.randrange(4) * 21600
+    for op, ds in (("osecs", odays), ("secs", mdays)):
+        for d in ds:
+            for s0 in (range(q0, q0 + 21600, 300) if quick and op == "secs" else range(0, 86400, 300)):
+                lines.append("%s %d %d %d" % (op, d, s0, 300))
+                inst += 300
+    return lines, inst, odays + mdays
+
+
+def instants_of(line):
+    t = line.split()
+    if t[0] in ("scan", "oscan"):
+        d0, n, sod, st = int(t[1]), int(t[2]), int(t[3]), int(t[4])
+        return [((d0 + st * i) * 86400 + sod) * 1000 + ((d0 + st * i) * 7919) % 1000 for i in range(n)]
+    day, s0, n = int(t[1]), int(t[2]), int(t[3])
+    return [(day * 86400 + s0 + i) * 1000 for i in range(n)]
+
+
+EXHAUSTIVE = {"quick": "sample only: every 61st day (implementation vs built-in oracle) and every 499th day (vs model) of 0001-01-01..9999-12-31 at 00:00:00, "
+                       "12:00:00, 23:59:59, the days around 1 January / 28 February of 1/8 of the years and all century years, every second of one day; "
+                       "complete: all 2880 zone offsets -23:59..+23:59, every single byte and every 2-byte string over the focus alphabet",
+              "thorough": "every day 0001-01-01..9999-12-31 at 00:00:00, 12:00:00 and 23:59:59 (3 x 3 652 059 instants, each with a millisecond part) on the "
+                          "implementation against the built-in days-from-civil oracle, every 7th day and 8 days around the start and the end of February of "
+                          "every year also against the model; every second of 200 sampled days incl. leap days, century boundaries and both ends of the "
+                          "1904-2099 fast path (16 of them also against the model); all 2880 zone offsets in every spelling"}
+
+
+def extra(ctx):
+    from concurrent.futures import ThreadPoolExecutor
+    from lib import core
+    from lib.engine import Failure
+    exe, tier, rng, stats = ctx["exe"], ctx["tier"], ctx["rng"], ctx["stats"]
+    lines, ninst, days = scan_lines(rng, tier)
+    nb = max(1, min(core.NCPU, len(lines) // 50 or 1))
+    # interleave so that every batch gets the same mix of cheap and expensive lines
+    batches = [lines[i::nb] for i in range(nb)]
+
+    def run(b):
+        full = ["case 0"] + b
+        impl, crash, err = core.run_impl(exe, full, timeout=3000)
+        model = core.run_model(DRIVER, full)
+        return b, impl[1:], model[1:], crash, err
+
+    fails = []
+    ok_lines = 0
+    with ThreadPoolExecutor(max_workers=nb) as ex:
+        results = list(ex.map(run, batches))
+    for b, impl, model, crash, err in results:
+        bad = None
+        for i, l in enumerate(b):
+            if i >= len(impl) or impl[i] != model[i]:
+                bad = i
+                break
+            ok_lines += 1
+        if bad is None:
+            continue
+        if len(fails) >= 3:
+            continue
+        # exact bisection: replay every instant of the offending line as a verbose `inst` op
+        ins = ["inst %d" % ms for ms in instants_of(b[bad])]
+        impl2, crash2, err2 = core.run_impl(exe, ["case 0"] + ins, timeout=600)
+        model2 = core.run_model(DRIVER, ["case 0"] + ins)
+        k = None
+        for i in range(len(ins)):
+            if i + 1 >= len(impl2) or impl2[i + 1] != model2[i + 1]:
+                k = i
+                break
+        if k is None:
+            f = Failure("crash" if crash else "diverge", [b[bad]], ["case"] + impl[bad:bad + 1], ["case", model[bad]], crash=crash, stderr=(err or "")[-3000:])
+        elif i + 1 >= len(impl2):
+            f = Failure("crash", [ins[k]], ["case"], ["case", model2[k + 1]], crash=crash2 or "crash", stderr=(err2 or "")[-3000:])
+        else:
+            f = Failure("diverge", [ins[k]], ["case", impl2[k + 1]], ["case", model2[k + 1]])
+        f.clause = ("the fields / strings / parsed instants of this instant differ from the model (which the theorems tie to the proleptic "
+                    "Gregorian calendar) or from the harness's independent days-from-civil oracle (or=BAD names the clause)")
+        f.name = "exhaustive scan K(C19): harness/c19.cpp (real asl::Date + Hinnant oracle) vs lean/Driver/C19.lean"
+        fails.append(f)
+    stats["evaluations"] += len(lines)
+    stats["distinct_nontrivial"] += len(lines)
+    stats["validated"] += ok_lines
+    stats["ops"] = stats.get("ops", 0) + len(lines)
+    stats["scan_instants"] = ninst
+    stats["scan_lines"] = len(lines)
+    stats["every_second_of_days"] = len(days)
+    stats["scan_oracle"] = "each scanned instant: splitUTC, Date(UTC,fields), 5 formats, 4 parses compared with the model (hash) and with Hinnant civil_from_days + snprintf inside the harness; floor(t*(1/86400.0)) == day checked"
+    return fails
+
+RULE = ("cases = groups of single ops on generated inputs: inst/split/fmt/rt on random and boundary instants (with milliseconds), parse on every zone offset "
+        "-23:59..+23:59, fractions of 0..20 digits, canonical ISO/HTTP strings, mutated and random strings over digits T Z : - + . letters spaces up to "
+        "length 40, make on valid and out-of-range field tuples; plus (extra) exhaustive scan lines, each covering up to 300 instants; "
+        "non-trivial = distinct case containing an instant op or a parse of a string of >= 8 bytes")
+TECHNIQUE = "Lean 4 theorems over a model regenerated from src/Date.cpp (clang AST -> Lean) + differential correspondence check with exhaustive day scan"
+TRUSTED = ["tools/props/c19.py translate(): clang-14 JSON AST walker for yearFromTime and the daysInYear/timeFromYearAsDays macros, regex extraction of "
+           "month_days, wd[], mn[], months (src/Date.cpp) into lean/Gen/DateGen.lean; unrecognised constructs are a TranslateError",
+           "harness/c19.cpp incl. its Hinnant civil_from_days oracle; python3 datetime as second reference"]
+ASSUMPTIONS = ["IEEE-754 double steps abstracted by the model and exercised exhaustively by the scan: floor(t*(1/86400.0)) and floor(t/86400.0) are the integer day, "
+               "the h/m/s extraction from the fractional day of t+0.0005 is the exact second of the day, int(1000*fract(t)+0.5)%1000 is the millisecond, "
+               "parseInt(frac)*pow(10,1-i) added to the instant is the fraction rounded to the nearest millisecond (ties within 0.06 ms are not generated: a double near year 9999 cannot resolve them)",
+               "C int arithmetic of yearFromTime does not overflow for instants of years 1..9999 (|d| < 3.7e6); elsewhere int arithmetic wraps (modelled by wrap32)",
+               "TZ=UTC in the harness: strings without zone designator and the format-driven parser use the local zone, whose offset is then 0",
+               "vsnprintf(\"%04i\"/\"%02i\"/\"%03i\") prints zero-padded decimals; String::split() yields the maximal runs of non-space bytes (C03)",
+               "libc atoi = (int)strtol: optional space, sign, digits, saturating at the 64-bit long range"]
+LEVEL_TEXT = "WORK IN PROGRESS"
+LEVEL_NOTE = "WORK IN PROGRESS"
